@@ -102,7 +102,12 @@ theorem feeBack_of_cancelFee {b : Bid} {q : Nat} {x : Option Nat} (h : cancelFee
   unfold feeBack
   rcases cancelFee_ok.mp h with ⟨hn, rfl⟩ | ⟨f, need, hf, hsp, rfl⟩
   · simp [hn]
-  · simp [hf, hsp.hneed, hsp.hle]
+  · by_cases hz : b.remQuote - q = 0
+    · have hneed := hsp.hneed
+      rw [hz] at hneed
+      have h0 : need = 0 := Dec.feeFor_zero_val hneed
+      simp [hf, hz, h0]
+    · simp [hf, hz, hsp.hneed, hsp.hle]
 
 theorem bidAfterReverse_eq (b : Bid) (c cq fb : Nat) :
     bidAfterReverse b c cq fb =
